@@ -13,6 +13,11 @@ NA_FIXED = {
 }
 
 CLAIMS = {
+    'C10': dict(
+        technique="static must-pass-through (edge dominance) + value-flow analysis over the MIR of encode()/decode(): Ok exits dominated by the streaming calls' Ok edges, caller iterators consumed only by next(), every yielded item reaches the matching add call under Option-test pruning",
+        text="Decides that the one-shot functions ARE the streaming sequence on every path: no Ok exit bypasses ReedSolomon{En,De}coder::new/encode/decode, every item of the caller's iterators reaches the matching add_*_shard before any Ok exit, the size is inferred from a first item, the returned collection is filled only from the streaming result. Found defect F4 on the pinned tree (repaired by fix: dbbf1ef).",
+        note="Trusted: `?`, Iterator::next / for desugaring, collect / HashMap::insert semantics. Truthfulness of locally built errors is C06.b.",
+        design="§4 C10"),
     'C06': dict(
         technique="static check-before-use taint analysis over rustc MIR (interprocedural, summaries of validators computed, sinks = Assert terminators / range-sensitive calls / governed panics) + typed-HIR path-condition matching of every Error construction against a per-variant truth table",
         text="Decides two clauses for all argument values and all paths: (a) no caller-supplied integer of the public codec API reaches an overflow/bounds/division check, a range-sensitive std call or a governed panic before an upper-bounding comparison (or a validator whose own summary shows it bounds the value on success); (b) each of the 18 Error constructions is governed by exactly the documented violated precondition and its fields are the operands of that condition; (c) callee errors are passed through unchanged. Found defects F2/F3 on the pinned tree (repaired by fix: b5b55b1).",
